@@ -64,7 +64,7 @@ mutual
         cases cur with
         | none => exact Trace.single _ rfl rfl
         | some op =>
-          simp only [valChildren, valWs1, List.nil_append, Trace, wr, List.cons_append, and_self, and_true]
+          simp only [valChildren, valWs1, List.nil_append, Trace, wr, List.cons_append, and_self]
       | .list => exact Trace.append hlist (Trace.single _ (by cases cur <;> rfl) rfl)
       | .object => exact Trace.append hobj (Trace.single _ (by cases cur <;> rfl) rfl)
       | .int => exact Trace.single _ (by cases cur <;> rfl) rfl
@@ -104,7 +104,8 @@ theorem Built.trace {sv : SV} {d : QueryDoc} {a b : VLinks} {es : List Event} (h
   | append _ _ ih1 ih2 => exact Trace.append ih1 ih2
   | args cur defs args ws _ _ => exact walkArgs_trace sv cur defs args ws
   | default op vd dv ws _ _ _ => exact walkValue_trace sv _ _ _ dv ws
-  | ev e hv => exact Trace.single e (wr_nonvalue e hv) rfl
+  | vdef op vd l _ _ => exact Trace.single _ rfl rfl
+  | ev e hv => exact Trace.single e (wr_nonvalue e hv.notValue) rfl
 
 /-- the variable-link table threads through a whole run, from the empty table -/
 theorem walkDoc_trace (sv : SV) (d : QueryDoc) (evs : List Event) (h : walkDoc sv d = some evs) :
@@ -166,7 +167,7 @@ theorem trace_own {l0 l1 : VLinks} (pre : List Event) (e : Event) (post : List E
   rw [hw] at this
   unfold Links.varDef
   rw [this]
-  simp [List.lookup]
+  simp
 
 /-- later events: until the key is written again, every event shows the binding written last -/
 theorem trace_last {l0 l1 : VLinks} (pre : List Event) (e : Event) (mid : List Event) (e' : Event) (post : List Event)
@@ -186,7 +187,7 @@ theorem trace_last {l0 l1 : VLinks} (pre : List Event) (e : Event) (mid : List E
     unfold wr
     rw [hc, hp]
   rw [hw]
-  simp [List.lookup]
+  simp
 
 /-- a key nobody has written so far shows no definition -/
 theorem trace_none {l1 : VLinks} (pre : List Event) (e' : Event) (post : List Event)
@@ -195,5 +196,53 @@ theorem trace_none {l1 : VLinks} (pre : List Event) (e' : Event) (post : List Ev
   unfold Links.varDef
   rw [this, logFrom_noWrite k _ _ hn]
   rfl
+
+/-- `wr e` is empty or one binding -/
+theorem wr_cases (e : Event) : wr e = [] ∨ ∃ op raw ch p exp dfn, e.cur = some op ∧
+    e.p = .value (.mk .variable raw ch p) exp dfn ∧ wr e = [(p.start, varForName op.vars raw)] := by
+  unfold wr
+  split
+  · rename_i op raw ch p exp dfn hc hp
+    exact Or.inr ⟨op, raw, ch, p, exp, dfn, hc, hp, rfl⟩
+  · exact Or.inl rfl
+
+/-- either nobody writes the key, or there is a last write -/
+theorem lastWrite_cases (k : Nat) : ∀ es : List Event, NoWrite k es ∨
+    ∃ pre e mid, es = pre ++ e :: mid ∧ NoWrite k mid ∧ ∃ op raw ch p exp dfn, e.cur = some op ∧
+      e.p = .value (.mk .variable raw ch p) exp dfn ∧ p.start = k
+  | [] => Or.inl (fun x hx => by cases hx)
+  | x :: rest => by
+    rcases lastWrite_cases k rest with h | ⟨pre, e, mid, he, hn, hx⟩
+    · rcases wr_cases x with hw | ⟨op, raw, ch, p, exp, dfn, hc, hp, hw⟩
+      · left
+        intro y hy
+        rcases List.mem_cons.1 hy with rfl | hy
+        · rw [hw]; intro z hz; cases hz
+        · exact h y hy
+      · by_cases hk : p.start = k
+        · exact Or.inr ⟨[], x, rest, rfl, h, op, raw, ch, p, exp, dfn, hc, hp, hk⟩
+        · left
+          intro y hy
+          rcases List.mem_cons.1 hy with rfl | hy
+          · rw [hw]
+            intro z hz
+            rw [List.mem_singleton.1 hz]
+            exact hk
+          · exact h y hy
+    · exact Or.inr ⟨x :: pre, e, mid, by rw [he]; rfl, hn, hx⟩
+
+/-- the link an event shows for the key `k` is the last binding written for `k` so far -/
+theorem event_varDef {l1 : VLinks} (pre : List Event) (e' : Event) (post : List Event)
+    (h : Trace [] (pre ++ e' :: post) l1) (k : Nat) :
+    e'.links.varDef k = ((logFrom [] (pre ++ [e'])).lookup k).join := by
+  unfold Links.varDef
+  rw [trace_at pre e' post h]
+
+theorem logFrom_lastWrite (k : Nat) (vd : Option VarDef) (pre : List Event) (e : Event) (mid : List Event) (l0 : VLinks)
+    (hw : wr e = [(k, vd)]) (hn : NoWrite k mid) : (logFrom l0 (pre ++ e :: mid)).lookup k = some vd := by
+  have hsplit : pre ++ e :: mid = (pre ++ [e]) ++ mid := by simp
+  rw [hsplit, logFrom_append, logFrom_noWrite k _ _ hn, logFrom_append]
+  simp only [logFrom, List.foldl_cons, List.foldl_nil, hw]
+  simp
 
 end Gql.Validate
